@@ -147,7 +147,8 @@ def render_steps(doc, table, cover, n, first_types=("given", "when", "then"), pr
         if r < 0.2:
             q = rnd.choice(['"""', "'''"])
             col = rnd.choice(["", "  ", "      "])
-            start = doc.emit(q, col, trail=False)
+            # a content type may follow the opening delimiter ("""json); it is no part of the text
+            start = doc.emit(q + rnd.choice(["", "", "", "json", "markdown", "x y"]), col, trail=False)
             content = [l for l in (rnd.choice(DOC_LINES) for _ in range(rnd.randint(0, 4))) if not l.strip().startswith(q)]
             for l in content:
                 doc.raw(col + l if l else rnd.choice(["", col]))
